@@ -1386,6 +1386,9 @@ namespace bloch::runtime {
         obj->destroyed = true;
         if (runUserDestructor && obj->cls) {
             bool savedReturn = m_hasReturn;
+            // A destructor may run while an enclosing function is unwinding with its return value
+            // pending; calls made by the destructor body must not clobber that value.
+            Value savedReturnValue = m_returnValue;
             for (RuntimeClass* cur = obj->cls; cur; cur = cur->base) {
                 if (!cur->destructorDecl || !cur->destructorDecl->body)
                     continue;
@@ -1415,6 +1418,7 @@ namespace bloch::runtime {
                 m_currentClassCtx = prevClass;
             }
             m_hasReturn = savedReturn;
+            m_returnValue = savedReturnValue;
         }
         // Reset tracked qubits
         if (obj->cls) {
@@ -1616,6 +1620,7 @@ namespace bloch::runtime {
             std::cerr << "[ctor] " << cls->name << " done" << std::endl;
         }
 
+        m_returnValue = {};  // a constructor's 'return this;' must not pin the new object
         endScope();
         m_currentClassCtx = prevClass;
         m_inStaticContext = prevStatic;
@@ -1660,6 +1665,7 @@ namespace bloch::runtime {
             }
         }
         Value ret = widenTo(method->decl->returnType.get(), m_returnValue);
+        m_returnValue = {};  // consumed: the slot must not keep a returned object alive
         endScope();
         m_hasReturn = prevReturn;
         m_currentClassCtx = prevClass;
@@ -1687,6 +1693,7 @@ namespace bloch::runtime {
             }
         }
         Value ret = widenTo(fn->returnType.get(), m_returnValue);
+        m_returnValue = {};  // consumed: the slot must not keep a returned object alive
         endScope();
         m_hasReturn = prevReturn;
         return ret;
